@@ -195,7 +195,7 @@ pub fn run(args: &Args, rec: &mut Recorder) {
     let _ = std::fs::remove_dir_all(&scratch);
     for k in [
         "gen.random_bytes", "gen.random_text", "gen.truncation", "gen.token_edit", "gen.token_soup",
-        "gen.byte_mutation", "gen.hostile_a2ml", "gen.truncation_in_a2ml", "gen.nesting",
+        "gen.byte_mutation", "gen.hostile_a2ml", "gen.a2ml_in_odd_place", "gen.truncation_in_a2ml", "gen.nesting",
     ] {
         rec.floor(k, 10);
     }
